@@ -165,6 +165,7 @@ fn supervised_check(prop: &str, tier: &str) -> i32 {
     let pid = std::process::id();
     let progress = format!("{root}/sim/target/progress-{prop}-{pid}.txt");
     let errlog = format!("{root}/sim/target/stderr-{prop}-{pid}.txt");
+    let _ = std::fs::create_dir_all(format!("{root}/sim/target"));
     let _ = std::fs::remove_file(&progress);
     let run_child = |extra: &[(&str, String)], errpath: &str| -> Option<std::process::ExitStatus> {
         let errf = std::fs::File::create(errpath).ok()?;
